@@ -189,7 +189,7 @@ FlushRecs(S, D, s) ==
     {[s |-> s, o |-> o, kind |-> IF o \in ModObjs(S) THEN "upd" ELSE "del", before |-> D.row[o],
       know |-> seen[s][o], own |-> written[s][o],
       lockedBy |-> {t \in Sessions \ {s} : result[t] = "running" /\ o \in locked[t]},
-      committed |-> FALSE, early |-> FALSE] :
+      optim |-> OptSession(s), committed |-> FALSE, early |-> FALSE] :
         o \in {p \in ModObjs(S) : Matches(S, D, s, p)} \cup {p \in DelObjs(S) : D.ex[p]}}
 
 (* ------------------------------- delivery of rows (Entity._db_set_) -------------------------- *)
@@ -413,9 +413,13 @@ TypeOK ==
    program had read and not overwritten itself still had, immediately before the update, the value the
    program saw.  (Stated on what the *program observed*, not on dbval/rbits, so that it also fails when
    the bookkeeping - read bits, refresh of dbval on re-delivery - is wrong.)  Sessions that failed
-   contribute nothing: their records are dropped with the rollback and `row` only changes in commits. *)
+   contribute nothing: their records are dropped with the rollback and `row` only changes in commits.
+   Optimistic sessions only, as the property says: a serializable / optimistic=False session is protected by
+   the lock it holds from its first query to the end of the *transaction*; after an explicit commit() it keeps
+   its cache, sends unguarded UPDATEs and can overwrite what others committed in between (TLC shows the
+   behaviour R(a) CM W(b) || W(a) when the restriction is dropped) - outside C20's statement. *)
 NoLostUpdate ==
-    \A r \in applied : r.kind = "upd" =>
+    \A r \in applied : (r.kind = "upd" /\ r.optim) =>
         \A x \in Attrs : (Optim(x) /\ r.know[x] # Unseen /\ x \notin r.own) => r.before[x] = r.know[x]
 FailedContributeNothing ==
     \A r \in applied : r.committed => (result[r.s] = "committed" \/ r.early)    \* early: committed by an explicit commit()
